@@ -1136,9 +1136,9 @@ namespace awkward {
         std::pair<Index64, ContentPtr> pair =
           trimmed.get()->offsets_and_flattened(posaxis, depth);
         if (pair.first.length() != 0) {
-          throw std::runtime_error(
-            std::string("RecordArray content with axis > depth + 1 returned a non-empty "
-                        "offsets from offsets_and_flattened") + FILENAME(__LINE__));
+          throw std::invalid_argument(
+            std::string("arrays of records cannot be flattened at the level of a list that "
+                        "one of the fields holds directly") + FILENAME(__LINE__));
         }
         contents.push_back(pair.second);
       }
